@@ -18,6 +18,11 @@
 (*                                                                                                                *)
 (* Restriction R = P^T entry-wise, truncation T with T P = I (nested families), Transfer::prol(x) = P x,            *)
 (* Transfer::rest(y) = P^T y, prolongate_vector(x) = P x.                                                          *)
+(*                                                                                                                *)
+(* HISTORIES (end of the module; enumerated by TransferHist.tla, judged by TransferHistCheck.tla): all of the above   *)
+(* are functions of (mesh pair, family, cubature rule) - OrderIndependent: whatever a process assembled before, with   *)
+(* whichever other rules, every assembly equals its fresh-process value; and the refined cubature rule the 2-level     *)
+(* assembly pairs with the child cells is the child image of its base rule (RefinedRulePoints / RefinedRuleWeights).   *)
 EXTENDS DofMap
 
 \* local index (0-based) of the coarse entity <<d, i>> in the closure of the coarse cell c (1-based); -1 if absent
@@ -95,4 +100,46 @@ IsPermutationMatrix(rows) ==
   /\ Cardinality(T) = Len(rows) /\ \A t \in T : t[3] = 1
   /\ Cardinality({t[1] : t \in T}) = Len(rows) /\ Cardinality({t[2] : t \in T}) = Len(rows)
 IsIdentity(rows, one) == Triples(rows) = {<<i, i - 1, one>> : i \in 1..Len(rows)}
+\* ------------------------------------------------------------------------------------------------------------------------
+\* HISTORIES within one process (enumerated by TransferHist.tla).
+\* The transfer operators and the refined cubature rules are FUNCTIONS of their inputs: the observation of step k of any history of
+\* assemblies in one process equals the observation of the same step in a fresh process.  obs / fresh: sequences of observations
+\* (digests of the bit patterns of everything the step produced).
+HistoryDependent(obs, fresh) == {k \in 1..Len(obs) : obs[k] # fresh[k]}
+OrderIndependent(obs, fresh) == Len(obs) = Len(fresh) /\ HistoryDependent(obs, fresh) = {}
+
+\* THE REFINED CUBATURE RULE of the 2-level assembly (Cubature::RefineFactoryCore, "refine:<base>"): for the one-cell mesh Mc and its
+\* regular refinement Mf, point c*n + k of the refined rule is the image of point k of the base rule under the reference map of child
+\* cell c (the fine cell number c, its local vertex order included - this is how the assembly pairs fine cubature points with coarse
+\* reference points), and its weight is the base weight times the volume fraction of the child.
+\* Points are integers at scale S (rounded by the harness), weights integers at some scale; the tolerances are the rounding of both sides.
+ChildVerts(Mc, Mf, par, fam, dim, f) == FineInCoarse(Mc, Mf, par, fam, dim, RefVerts(fam, dim), f)
+EdgeVec(Y, fam, e) == Sub(Y[(IF fam = "hypercube" THEN Pow2(e - 1) ELSE e) + 1], Y[1])
+SumDim(F(_), dim) == F(1) + F(2) + (IF dim = 3 THEN F(3) ELSE 0)
+\* the children of the reference hypercube are parallelepipeds: vertex v = vertex 0 + the edge vectors of the set bits of v
+ChildAffine(Y, fam, dim) ==
+  fam = "hypercube" => \A v \in 0..(Pow2(dim) - 1) : \A a \in 1..dim :
+    Y[v + 1][a] = Y[1][a] + SumDim(LAMBDA e : IF (v \div Pow2(e - 1)) % 2 = 1 THEN EdgeVec(Y, fam, e)[a] ELSE 0, dim)
+\* numerator of coordinate a of the image of the base point b (integers at scale S) over  PointScale * S * (2 for hypercubes: [-1,1]^d)
+ImageNum(Y, fam, dim, b, S, a) ==
+  IF fam = "hypercube" THEN Y[1][a] * 2 * S + SumDim(LAMBDA e : EdgeVec(Y, fam, e)[a] * (b[e] + S), dim)
+  ELSE Y[1][a] * S + SumDim(LAMBDA e : EdgeVec(Y, fam, e)[a] * b[e], dim)
+PointIsImage(Y, fam, dim, b, r, S) ==
+  \A a \in 1..dim : AbsI(r[a] * PointScale(fam) * (IF fam = "hypercube" THEN 2 ELSE 1) - ImageNum(Y, fam, dim, b, S, a)) <= PointScale(fam) * (dim + 2)
+ChildVol(Y, fam, dim) == AbsI(IF dim = 2 THEN Det2(EdgeVec(Y, fam, 1), EdgeVec(Y, fam, 2)) ELSE Det3(EdgeVec(Y, fam, 1), EdgeVec(Y, fam, 2), EdgeVec(Y, fam, 3)))
+RefVol(fam, dim) == IPow(PointScale(fam) * (IF fam = "hypercube" THEN 2 ELSE 1), dim)
+WeightIsScaled(Y, fam, dim, bw, rw) == AbsI(rw * RefVol(fam, dim) - bw * ChildVol(Y, fam, dim)) <= RefVol(fam, dim) + ChildVol(Y, fam, dim)
+RefinedRuleSizes(Mc, Mf, dim, n, bp, bw, rp, rw) ==
+  /\ N(Mc, dim) = 1 /\ n >= 1 /\ Len(bp) = n /\ Len(bw) = n /\ Len(rp) = n * N(Mf, dim) /\ Len(rw) = n * N(Mf, dim)
+  /\ \A k \in 1..Len(bp) : Len(bp[k]) = dim
+  /\ \A k \in 1..Len(rp) : Len(rp[k]) = dim
+RefinedRulePoints(Mc, Mf, par, fam, dim, n, bp, rp, S) ==
+  \A f \in 1..N(Mf, dim) : LET Y == ChildVerts(Mc, Mf, par, fam, dim, f) IN
+    ChildAffine(Y, fam, dim) /\ \A k \in 1..n : PointIsImage(Y, fam, dim, bp[k], rp[(f - 1) * n + k], S)
+RefinedRuleWeights(Mc, Mf, par, fam, dim, n, bw, rw) ==
+  \A f \in 1..N(Mf, dim) : LET Y == ChildVerts(Mc, Mf, par, fam, dim, f) IN
+    ChildVol(Y, fam, dim) > 0 /\ \A k \in 1..n : WeightIsScaled(Y, fam, dim, bw[k], rw[(f - 1) * n + k])
+\* the children tile the reference cell
+ChildrenTile(Mc, Mf, par, fam, dim) ==
+  FoldSeq(LAMBDA f, acc : acc + ChildVol(ChildVerts(Mc, Mf, par, fam, dim, f), fam, dim), 0, [f \in 1..N(Mf, dim) |-> f]) = RefVol(fam, dim)
 =============================================================================
